@@ -39,8 +39,12 @@ CFG = {'module': 'Dnp3.Props.C12',
  'assumptions': ['tokio timer and Notify semantics; xxh64 collision-free on compared fragments (model '
                  'compares octets)'],
  'level_text': 'Lean theorems over the session model (shape and correlation of every transmitted fragment, '
-               'silent functions, rejection flagged, every rejected header of a WRITE included) for all states and '
+               'silent functions, rejection flagged, every rejected header of a WRITE included; the control '
+               'functions always return: an OPERATE whose echo does not fit the solicited buffer is answered '
+               'with the truncated echo, D1 repaired - the silent truncation of SELECT / OPERATE / '
+               'DIRECT_OPERATE echoes is the remaining finding D13) for all states and '
                'requests; tie: correspondence of the real task vs model over the request space + trace '
                'monitors',
  'level_note': 'trusted: Lean kernel, harness, scripted callbacks; Rust modelled not verified; runtime '
-               'scheduling outside the model'}
+               'scheduling outside the model; the session model has no panic left (C01 '
+               'outstation_step_no_panic, unconditional over reachable states)'}
